@@ -535,6 +535,8 @@ func (r *v1run) finish() {
 		r.drainErr()
 	case r.cfg.Extra["alone"] == true && !r.graceReq && r.aloneScenario():
 		fallthrough
+	case r.cfg.Extra["stall"] == true && !r.graceReq && r.stallScenario():
+		fallthrough
 	default:
 		// a control call racing with termination panics in v1 (send on closed channel; observation N3, no property):
 		// let pending AddInput/RemoveInput calls return first, helping the scheduler to its top select
@@ -782,5 +784,39 @@ func (r *v1run) aloneScenario() bool {
 		qnote = "unfilled-base-division"
 	}
 	r.emit(obs{E: "QA", P: p, Held: r.heldCounts(), Note: qnote})
+	return false
+}
+
+// stallScenario (C01 / C17 adversarial continuation): keep every registered open buffered channel full, receive everything,
+// release nothing until the discipline stops handing out items; then the graceful end game follows. Always returns false.
+func (r *v1run) stallScenario() bool {
+	r.waitFor(100, func() bool { return r.addRmPending() == 0 })
+	for idle := 0; idle < 10 && len(r.held) <= 3*int(r.cfg.H)+8; {
+		progressed := false
+		for _, p := range r.cfg.Prios {
+			c, ok := r.reg[p]
+			if !ok || r.closedIn[c] || cap(r.ch[c]) == 0 {
+				continue
+			}
+			for len(r.ch[c]) < cap(r.ch[c]) {
+				r.nextItem[c]++
+				r.emit(obs{E: "W", C: uint(c), K: r.nextItem[c]})
+				r.ch[c] <- c*1000 + r.nextItem[c]
+				r.expect[c]++
+				progressed = true
+			}
+		}
+		r.observe()
+		for r.recv() {
+			progressed = true
+		}
+		if progressed {
+			idle = 0
+		} else {
+			idle++
+			time.Sleep(3 * time.Nanosecond)
+		}
+	}
+	r.emit(obs{E: "Q", Held: r.heldCounts()})
 	return false
 }
